@@ -13,9 +13,14 @@ from pyvc.values import *
 from pyvc.state import State
 
 
-def fc_match(H, ct, idv, y):
-    """child y matches (tag, id) the way find_child tests it"""
-    return z3.And(H.tag(y) == ct, z3.Or(idv == none_s, text(H.find(y, idtag(ct))) == idv))
+ANY = 'mosromgr.utils.xml._ANY'
+
+
+def fc_match(W, H, ct, idv, y):
+    """child y matches (tag, id): id omitted (sentinel) = any child with the tag;
+    id None (blank reference) = nothing; else the child's <tag>ID text equals id"""
+    return z3.And(H.tag(y) == ct, idv != none_s,
+                  z3.Or(idv == W.sentinel(ANY), text(H.find(y, idtag(ct))) == idv))
 
 
 @contract('mosromgr.utils.xml.find_child')
@@ -37,7 +42,7 @@ class FindChild(Contract):
             ('child_tag_is_str', ct != none_s),
             # safety of `child.find(f'{child_tag}ID').text` : only needed when an id is searched for
             ('tagged_children_have_id_tag',
-             z3.Or(idv == none_s,
+             z3.Or(idv == none_s, idv == cx.W.sentinel(ANY),
                    forall_nodes(1, lambda y: z3.Implies(z3.And(H.mem(P, y), H.tag(y) == ct),
                                                         H.find(y, idtag(ct)) != null),
                                 patterns=lambda y: [H.mem(P, y)]))),
@@ -48,11 +53,11 @@ class FindChild(Contract):
         H = cx.H
         rv = fresh_node(cx.W, 'found')
         r = rv.t
-        found = z3.And(H.mem(P, r), fc_match(H, ct, idv, r),
+        found = z3.And(H.mem(P, r), fc_match(cx.W, H, ct, idv, r),
                        forall_nodes(1, lambda y: z3.Implies(z3.And(H.mem(P, y), H.pos(P, y) < H.pos(P, r)),
-                                                            z3.Not(fc_match(H, ct, idv, y))),
+                                                            z3.Not(fc_match(cx.W, H, ct, idv, y))),
                                     patterns=lambda y: [H.mem(P, y)]))
-        notfound = forall_nodes(1, lambda y: z3.Implies(H.mem(P, y), z3.Not(fc_match(H, ct, idv, y))),
+        notfound = forall_nodes(1, lambda y: z3.Implies(H.mem(P, y), z3.Not(fc_match(cx.W, H, ct, idv, y))),
                                 patterns=lambda y: [H.mem(P, y)])
         return [Case('found', ret=STuple([rv, SInt(H.pos(P, r))]), assume=[found]),
                 Case('notfound', ret=STuple([NONE, NONE]), assume=[notfound])]
@@ -68,5 +73,5 @@ class FindChildLoop(LoopSpec):
         H = cx.H
         return [('no_match_before_k',
                  forall_nodes(1, lambda y: z3.Implies(z3.And(H.mem(P, y), H.pos(P, y) < lp.k),
-                                                      z3.Not(fc_match(H, ct, idv, y))),
+                                                      z3.Not(fc_match(cx.W, H, ct, idv, y))),
                               patterns=lambda y: [H.mem(P, y)]))]
